@@ -163,9 +163,10 @@ def chain_rules(rep, prog):
     rep.check("CHAIN.partition", ok, fwhere(f), "root i: edges j->j-1 for j in [1,i] and j->j+1 for j in [i,p-2]; lower endpoints [0,i-1] ∪ [i,p-2] = all p-1 chain edges, once each",
               "chain edges are not partitioned into backward [0,i-1] and forward [i,p-2] halves: %s" % (spans,))
     apps = [c for c in S.select("call", qname=q) if c.callkind == "method" and c.target == ".append"]
-    fresh = all(li["init"].get("A", ("ext", "numpy.zeros", (("tuple", (p, p)),), ())) in (("ext", "numpy.zeros", (("tuple", (p, p)),), ()),) or li["init"].get("A", ("x",))[0] == "after"
-                for _, li in inner)
-    zero_start = any(li["init"].get("A") == ("ext", "numpy.zeros", (("tuple", (p, p)),), ()) for _, li in inner)
+    zeros = ("ext", "numpy.zeros", (("tuple", (p, p)),), ())
+    inits = [v for _, li in inner for v in li["init"].values()]
+    fresh = all(v == zeros or v[0] == "after" for v in inits)
+    zero_start = any(v == zeros for v in inits)
     rep.check("CHAIN.roots", len(apps) == 1 and apps[0].loops == (lo,) and zero_start and fresh, fwhere(f), "one fresh zero p x p matrix per root, appended once",
               "graphs are not built from a fresh zero matrix once per root")
 
